@@ -800,7 +800,7 @@ func l2Knobs(r *simrt.Rand, kind int, g *l2Gen) map[string]int64 {
 }
 
 func l2Sched(r *simrt.Rand) simrt.Config {
-	cfg := simrt.Config{Seed: int64(r.Uint64() >> 1)}
+	cfg := simrt.Config{Seed: int64(r.Uint64() >> 1), ShuffleMaps: r.Bool(0.5)}
 	if r.Bool(0.3) {
 		cfg.Mode = "random"
 	} else {
